@@ -120,6 +120,8 @@ fn analyse(ts: TokenStream) -> Value {
                                 "where": im.generics.where_clause.to_token_stream().to_string(),
                                 "param_bounds": bounds,
                                 "idents": idents_of(im.to_token_stream()),
+                                "binders": binders_of(im.to_token_stream()),
+                                "bare": bare_idents(im.to_token_stream()),
                                 "paths": crate_paths(im.to_token_stream()),
                             }));
                         }
@@ -152,6 +154,84 @@ fn idents_of(ts: TokenStream) -> Vec<String> {
     let mut out = vec![];
     walk(ts, &mut out);
     out.sort();
+    out
+}
+
+/// Identifiers bound by `let [mut]`, `ref [mut]`, `for .. in` and closure parameters `|x|` in the emitted code.
+fn binders_of(ts: TokenStream) -> Vec<String> {
+    fn walk(ts: TokenStream, out: &mut Vec<String>) {
+        let toks: Vec<TokenTree> = ts.into_iter().collect();
+        let is_kw = |t: Option<&TokenTree>, k: &str| matches!(t, Some(TokenTree::Ident(i)) if i == k);
+        let mut i = 0;
+        while i < toks.len() {
+            if let TokenTree::Group(g) = &toks[i] {
+                walk(g.stream(), out);
+            }
+            if is_kw(toks.get(i), "let") || is_kw(toks.get(i), "ref") || is_kw(toks.get(i), "for") {
+                let mut k = i + 1;
+                if is_kw(toks.get(k), "mut") {
+                    k += 1;
+                }
+                // a pattern such as `Some(x)` or a path is not a binder; `impl Trait for Type` is not a loop
+                let followed_by_call = matches!(toks.get(k + 1), Some(TokenTree::Group(g)) if g.delimiter() == proc_macro2::Delimiter::Parenthesis)
+                    || matches!(toks.get(k + 1), Some(TokenTree::Punct(p)) if p.as_char() == ':' && p.spacing() == proc_macro2::Spacing::Joint);
+                let loop_ok = !is_kw(toks.get(i), "for") || is_kw(toks.get(k + 1), "in");
+                if let Some(TokenTree::Ident(id)) = toks.get(k) {
+                    let s = id.to_string();
+                    if !followed_by_call && loop_ok && !out.contains(&s) {
+                        out.push(s);
+                    }
+                }
+            }
+            // closure parameter: `|` ident `|`
+            if let (TokenTree::Punct(a), Some(TokenTree::Ident(id)), Some(TokenTree::Punct(b))) = (&toks[i], toks.get(i + 1), toks.get(i + 2)) {
+                if a.as_char() == '|' && b.as_char() == '|' {
+                    let s = id.to_string();
+                    if !out.contains(&s) {
+                        out.push(s);
+                    }
+                }
+            }
+            i += 1;
+        }
+    }
+    let mut out = vec![];
+    walk(ts, &mut out);
+    out.sort();
+    out
+}
+
+/// Identifiers the emitted code uses unqualified in a path-start position: not preceded by `::` or `.`,
+/// and followed by `::`, `(`, `<`, `!` or `{` (a type, function, variant or macro named without a path).
+fn bare_idents(ts: TokenStream) -> Vec<String> {
+    fn walk(ts: TokenStream, out: &mut Vec<String>) {
+        let toks: Vec<TokenTree> = ts.into_iter().collect();
+        for (i, t) in toks.iter().enumerate() {
+            if let TokenTree::Group(g) = t {
+                walk(g.stream(), out);
+            }
+            if let TokenTree::Ident(id) = t {
+                let prev_sep = i > 0 && matches!(&toks[i - 1], TokenTree::Punct(p) if p.as_char() == ':' || p.as_char() == '.' || p.as_char() == '\'');
+                if prev_sep {
+                    continue;
+                }
+                let s = id.to_string();
+                let first_upper = s.chars().next().map(|c| c.is_uppercase()).unwrap_or(false);
+                let next_bang = matches!(toks.get(i + 1), Some(TokenTree::Punct(p)) if p.as_char() == '!');
+                let keyword = ["if", "else", "match", "return", "while", "for", "in", "let", "mut", "ref"].contains(&s.as_str());
+                let next_bang = next_bang
+                    && !keyword
+                    && !matches!(toks.get(i + 2), Some(TokenTree::Punct(p)) if p.as_char() == '=');
+                if (first_upper || next_bang) && !out.contains(&s) {
+                    out.push(if next_bang { format!("{}!", s) } else { s });
+                }
+            }
+        }
+    }
+    let mut out = vec![];
+    walk(ts, &mut out);
+    out.sort();
+    out.dedup();
     out
 }
 
